@@ -146,7 +146,8 @@ func PropC11(c *vs.Case, f Factory) error {
 		}
 		finalizerRemoved := false
 		for _, r := range t.Reqs {
-			if r.Def.Resource == scn.Cfg.ParentResource && r.Verb == "update" && r.Subresource == "" && r.Accepted() {
+			if r.Def.Resource == scn.Cfg.ParentResource && r.Verb == "update" && r.Subresource == "" && r.Accepted() && r.Pre != nil &&
+				!vs.JSONEqual(metaOfMap(vs.CopyMap(r.Pre))["finalizers"], metaOfMap(vs.CopyMap(r.Post))["finalizers"]) {
 				finalizerRemoved = true // finalizer edit: the code continues with the fresh parent
 			}
 		}
